@@ -29,6 +29,7 @@ gr_segment *shape(const gr_face *face, int enc, const std::vector<long long> &un
     Guarded &g = pool.get(units.size() * usz);
     std::vector<uint8_t> b = encode_units(enc, units);
     memcpy(g.data(), b.data(), b.size());
+    GRV_WATCHDOG;
     return gr_make_seg(0, face, 0, 0, gr_encform(usz), g.data(), nChars, dir);
 }
 
